@@ -24,7 +24,8 @@ EXPLANATION = (
 )
 ASSUMPTIONS = ["raise sets of the stdlib calls are the table RAISES below", "exception hierarchy table HIER"]
 
-HIER = {"URLError": "OSError", "HTTPError": "URLError", "FileNotFoundError": "OSError",
+HIER = {"KeyError": "LookupError", "LookupError": "Exception", "TypeError": "Exception", "AttributeError": "Exception",
+        "URLError": "OSError", "HTTPError": "URLError", "FileNotFoundError": "OSError",
         "PermissionError": "OSError", "IsADirectoryError": "OSError", "JSONDecodeError": "ValueError",
         "UnicodeDecodeError": "ValueError", "OSError": "Exception", "ValueError": "Exception",
         "Exception": "BaseException"}
@@ -86,6 +87,54 @@ def r1_error_coverage(ctx, rep):
                (f"{exc} (from {call_name(node)}) is caught by {sorted(handled)}" if ok else
                 f"{call_name(node)}(...) inside the try can raise {exc}, which the handler {sorted(handled)} does not "
                 f"cover: a missing or unreadable external description aborts the whole run"), py.nloc(node))
+    # shape errors: the conversion subscripts JSON values and calls str methods on them
+    d2o = py.func("external_project.dict2obj")
+    param = d2o.args.args[1].arg
+    shape: Dict[str, ast.AST] = {}
+    for n in ast.walk(d2o):
+        if isinstance(n, ast.Subscript) and isinstance(n.ctx, ast.Load) and isinstance(n.value, ast.Name) \
+                and n.value.id in (param, "ENTITIES"):
+            shape.setdefault("KeyError", n)
+            if n.value.id == param:
+                shape.setdefault("TypeError", n)
+        if isinstance(n, ast.Call) and isinstance(n.func, ast.Attribute) and isinstance(n.func.value, (ast.Subscript, ast.Call)) \
+                and param in ast.unparse(n.func.value):
+            shape.setdefault("AttributeError", n)
+    if len(shape) < 3:
+        raise AnalysisError(f"dict2obj: shape-error sources not found ({sorted(shape)})")
+    parents = {}
+    for n in ast.walk(fn):
+        for c in ast.iter_child_nodes(n):
+            parents[c] = n
+    conv = [c for c in py.walk_calls(fn) if call_name(c) == "dict2obj"]
+    conv += [n for n in ast.walk(fn) if isinstance(n, ast.Subscript) and isinstance(n.ctx, ast.Load)
+             and isinstance(n.slice, ast.Constant) and n.slice.value == "modules"]
+    if len(conv) < 2:
+        raise AnalysisError("load_external_modules: conversion sites not found")
+    for site in conv:
+        h2: Set[str] = set()
+        n = site
+        while n in parents:
+            pn = parents[n]
+            if isinstance(pn, ast.Try) and any(n is x or n in list(ast.walk(x)) for x in pn.body):
+                for h in pn.handlers:
+                    if h.type is None:
+                        h2.add("BaseException")
+                    else:
+                        for x in (h.type.elts if isinstance(h.type, ast.Tuple) else [h.type]):
+                            h2.add(ast.unparse(x).split(".")[-1])
+            n = pn
+        what = "dict2obj(...)" if isinstance(site, ast.Call) else ast.unparse(site)
+        for exc, src in sorted(shape.items()):
+            if not isinstance(site, ast.Call) and exc == "AttributeError":
+                continue
+            if not isinstance(site, ast.Call):
+                src = site
+            ok = covers(h2, exc)
+            rep.ob(f"load_external_modules: {what} guarded against {exc}", ok,
+                   f"caught by {sorted(h2)}" if ok else
+                   f"a description of the wrong shape makes `{ast.unparse(src)}` ({py.nloc(src)}) raise {exc}, which is not "
+                   f"caught around {what}: a malformed modules.json aborts the whole run", py.nloc(site))
     # everything fallible about the description happens inside the try
     after = [c for st in fn.body for c in ast.walk(st) if isinstance(c, ast.Call)
              and call_name(c).split(".")[-1] in ("urlopen", "loads", "read_text") and not any(
@@ -328,11 +377,93 @@ def r6_fresh_objects_and_node_urls(ctx, rep):
            f"which then gets the '../' prefix of local pages and points nowhere", py.nloc(raw))
 
 
+STR_CALLS = {"str", "urljoin", "format", "join", "as_posix", "fspath"}
+PATH_CALLS = {"Path", "resolve", "joinpath", "absolute", "expanduser", "PurePath", "PosixPath"}
+
+
+def expr_type(e: ast.AST) -> str:
+    """'str' | 'path' | 'json' (value taken out of the JSON dictionary) | '?'"""
+    if isinstance(e, ast.JoinedStr) or (isinstance(e, ast.Constant) and isinstance(e.value, str)):
+        return "str"
+    if isinstance(e, ast.Call):
+        last = call_name(e).split(".")[-1]
+        if last in STR_CALLS:
+            return "str"
+        if last in PATH_CALLS:
+            return "path"
+    if isinstance(e, ast.BinOp) and isinstance(e.op, ast.Div):
+        return "path"                              # the only `/` on URLs in this module is pathlib's
+    if isinstance(e, ast.BinOp) and isinstance(e.op, (ast.Add, ast.Mod)):
+        return "str"
+    if isinstance(e, ast.Subscript) or (isinstance(e, ast.Call) and call_name(e).endswith(".get")):
+        return "json"
+    return "?"
+
+
+def r7_url_types(ctx, rep):
+    """The URL of an external entity is consumed with str methods (the [[name]] processor calls .startswith, templates
+    print it): every value dict2obj passes to the Ext* constructor is a str (or the JSON value itself).  The base
+    handed to modules_from_local is joined with `/`: it is a Path on every path through the local branch."""
+    py = ctx.py
+    d2o = py.func("external_project.dict2obj")
+    ctor = [c for c in py.walk_calls(d2o) if isinstance(c.func, ast.Subscript) and ast.unparse(c.func.value) == "ENTITIES"]
+    if len(ctor) != 1 or len(ctor[0].args) < 2 or not isinstance(ctor[0].args[1], ast.Name):
+        raise AnalysisError("dict2obj: ENTITIES[...](name, <url var>, parent) not found")
+    var = ctor[0].args[1].id
+    asg = [n for n in ast.walk(d2o) if isinstance(n, ast.Assign) and any(isinstance(t, ast.Name) and t.id == var for t in n.targets)]
+    if not asg:
+        raise AnalysisError(f"dict2obj: no assignment to {var}")
+    for a in asg:
+        t = expr_type(a.value)
+        ok = t in ("str", "json")
+        rep.ob(f"dict2obj: `{var} = {ast.unparse(a.value)}` is a str", ok,
+               f"value kind {t}" if ok else
+               f"the external URL is a {t} object: [[name]] references to this entity fail with \"'PosixPath' object has no "
+               f"attribute 'startswith'\" and the run aborts", py.nloc(a))
+    fn = py.func("external_project.load_external_modules")
+    calls = [c for c in py.walk_calls(fn) if call_name(c) == "modules_from_local"]
+    if len(calls) != 1 or not isinstance(calls[0].args[0], ast.Name):
+        raise AnalysisError("load_external_modules: modules_from_local(<var>) not found")
+    v = calls[0].args[0].id
+    # the statement list that contains the call, and the assignments to v that precede it in this list
+    parents = {}
+    for n in ast.walk(fn):
+        for c in ast.iter_child_nodes(n):
+            parents[c] = n
+    st = calls[0]
+    while not isinstance(st, ast.stmt):
+        st = parents[st]
+    owner = parents[st]
+    body = next(b for b in (getattr(owner, f, None) for f in ("body", "orelse", "finalbody")) if isinstance(b, list) and st in b)
+    typ = "str"                                     # project.external values are strings
+    where = st
+    for s2 in body[: body.index(st) + 1]:
+        if isinstance(s2, ast.Assign) and any(isinstance(t, ast.Name) and t.id == v for t in s2.targets):
+            typ, where = expr_type(s2.value), s2
+        elif any(isinstance(n, ast.Assign) and any(isinstance(t, ast.Name) and t.id == v for t in n.targets) for n in ast.walk(s2)):
+            # conditional conversion: the other path keeps the previous type
+            inner = [n for n in ast.walk(s2) if isinstance(n, ast.Assign) and any(isinstance(t, ast.Name) and t.id == v for t in n.targets)]
+            has_else = isinstance(s2, ast.If) and bool(s2.orelse) and any(
+                isinstance(n, ast.Assign) and any(isinstance(t, ast.Name) and t.id == v for t in n.targets)
+                for o in s2.orelse for n in ast.walk(o))
+            if not (has_else and all(expr_type(n.value) == "path" for n in inner)):
+                if typ != "path":
+                    typ, where = f"path only if `{ast.unparse(s2.test) if isinstance(s2, ast.If) else '...'}`", s2
+            else:
+                typ, where = "path", s2
+    ok = typ == "path"
+    rep.ob(f"load_external_modules: modules_from_local({v}) receives a Path on every path", ok,
+           "converted unconditionally in the local branch" if ok else
+           f"`{v}` is {typ}; otherwise it is still the configured string and `url / 'modules.json'` raises TypeError, "
+           f"which the handler does not cover: an absolute local path aborts the run", py.nloc(where))
+
+
 RULES = [
     RuleSpec("C16.R6", r6_fresh_objects_and_node_urls, "one object per exported entity; external node URLs unchanged", floor=3),
-    RuleSpec("C16.R1", r1_error_coverage, "exception coverage of the external load path", floor=4),
+    RuleSpec("C16.R1", r1_error_coverage, "exception coverage of the external load path", floor=9),
     RuleSpec("C16.R2", r2_tables_agree, "export/import tables agree", floor=12),
     RuleSpec("C16.R3", r3_local_precedence, "local entities take precedence over external ones", floor=2),
     RuleSpec("C16.R4", r4_export_scope, "export scope and external_url short-circuit", floor=4),
     RuleSpec("C16.R5", r5_remote_base_url, "remote base URL normalised before urljoin", floor=2),
+    RuleSpec("C16.R7", r7_url_types, "external URLs are strings; the local base is a Path", floor=3),
 ]
